@@ -13,7 +13,7 @@ class _Observable(_Observable, _STIXBase21):
 
     def __init__(self, **kwargs):
         super(_Observable, self).__init__(**kwargs)
-        if 'id' not in kwargs:
+        if kwargs.get('id') is None:
             # Specific to 2.1+ observables: generate a deterministic ID
             id_ = self._generate_id()
 
